@@ -123,7 +123,10 @@ def check_input(cls, data, want=('C02', 'C03', 'C05'), framing=False, suffixes=(
                 if n <= 0:
                     bad.append(('C03', 'positive:' + name, '{}: consumed {} on {}'.format(name, n, hx(data))))
                 ref = canon.generic(obj)
-                for sfx in suffixes:
+                # besides the fixed suffixes: the unit's own last byte repeated (a terminator must be taken once),
+                # line terminators, and the unit itself (a stream of units)
+                own = tuple(x for x in (data[n - 1:n] * 2, b'\n', b'\n\n\x00', b'\r\n', b' ', data[:n]) if x)
+                for sfx in tuple(suffixes) + own:
                     try:
                         o2, n2 = cls.parse_immutable(data[:n] + sfx)
                         same_obj = canon.generic(o2) == ref and n2 == n
